@@ -94,6 +94,15 @@ impl FraudProof for BadEncodingFraudProof {
             );
         }
 
+        // the codec cannot re-encode an axis wider than this, so nothing can be proven about it
+        // (a failing reconstruction below must not be taken for a proof of bad encoding)
+        if square_width > leopard_codec::ORDER {
+            bail_validation!(
+                "dah square width ({square_width}) > max supported by codec ({})",
+                leopard_codec::ORDER
+            );
+        }
+
         // verify that Merkle proofs correspond to particular shares.
         for (share_idx, maybe_share) in self.shares.iter().enumerate() {
             let Some(share_with_proof) = maybe_share else {
